@@ -48,6 +48,7 @@ type Contract struct {
 	Pure       bool
 	Trusted    bool
 	NoInline   bool
+	HintMapLen bool // prover hint: after m[k] = v state that len(m) > 0 (true of every map; costly for the solver, so opt-in)
 	IsISpec    bool
 	IfaceKey   string
 	Fn         *ssa.Function
@@ -381,7 +382,7 @@ func parseFuncHeader(hdr string) (*ast.FuncDecl, error) {
 func parseClauses(c *Contract, d *directive) error {
 	// group continuation lines into clauses
 	var clauses []string
-	kw := regexp.MustCompile(`^(requires|ensures|invariant|decreases|assert|assume|closure|preserves|modifies|let|pure|trusted|noinline)\b`)
+	kw := regexp.MustCompile(`^(requires|ensures|invariant|decreases|assert|assume|closure|preserves|modifies|let|pure|trusted|noinline|hint)\b`)
 	for _, ln := range d.lines {
 		if kw.MatchString(ln) {
 			clauses = append(clauses, ln)
@@ -399,6 +400,8 @@ func parseClauses(c *Contract, d *directive) error {
 			c.Trusted = true
 		case cl == "noinline":
 			c.NoInline = true
+		case cl == "hint maplen":
+			c.HintMapLen = true
 		case strings.HasPrefix(cl, "modifies"):
 			rest := strings.TrimSpace(strings.TrimPrefix(cl, "modifies"))
 			if rest == "nothing" || rest == "" {
